@@ -94,7 +94,7 @@ CONS = ("c1", "c2")
 
 
 def fired(prev, r, c):
-    return r["ev"] == "month" and r["ok"] and any(e <= r["t"] for e in prev["cs"][c]["mt"])
+    return r["ev"] in ADV + ("payout",) and r["ok"] and any(e <= r["t"] for e in prev["cs"][c]["mt"])
 
 
 def month_kind(prev, r, c):
